@@ -15,6 +15,7 @@ import (
 	"path/filepath"
 	"strings"
 	"sync"
+	"sync/atomic"
 	"time"
 )
 
@@ -270,6 +271,8 @@ var solvers = []solverSpec{
 	}},
 }
 
+var solveSeq int64
+
 var (
 	cacheDir   string
 	cacheMu    sync.Mutex
@@ -344,7 +347,9 @@ func solve(script string, timeoutS int, confirm bool) SolverResult {
 			return SolverResult{Status: "unsat", Solver: s + " (cached)"}
 		}
 	}
-	f := filepath.Join(scratchDir, h+".smt2")
+	// unique per call: two obligations can have the same script (same hash) and run concurrently
+	seq := atomic.AddInt64(&solveSeq, 1)
+	f := filepath.Join(scratchDir, fmt.Sprintf("%s-%d.smt2", h, seq))
 	if err := os.WriteFile(f, []byte(script), 0o644); err != nil {
 		return SolverResult{Status: "error", Output: err.Error()}
 	}
@@ -369,7 +374,7 @@ func solve(script string, timeoutS int, confirm bool) SolverResult {
 	// member is ignored. It decides the many goals that are plain arithmetic over a context
 	// whose quantifiers only slow the solvers down.
 	if lite, ok := stripQuantified(script); ok {
-		fl := filepath.Join(scratchDir, h+".lite.smt2")
+		fl := filepath.Join(scratchDir, fmt.Sprintf("%s-%d.lite.smt2", h, seq))
 		if err := os.WriteFile(fl, []byte(lite), 0o644); err == nil {
 			defer os.Remove(fl)
 			nrun++
